@@ -131,6 +131,8 @@ type probeOpts struct {
 	cidOf    map[int][]byte
 	vlanOf   map[int][2]uint16
 	nClients int
+	hw       map[int][]byte // hardware addresses that are not the default 6-byte ones
+	client   int            // != 0: probe for client client-1 only
 }
 
 func otherIP(ip net.IP) net.IP {
@@ -140,8 +142,20 @@ func otherIP(ip net.IP) net.IP {
 }
 
 func genProbe(r *vh.Rng, po probeOpts) Probe {
+	p, _ := genProbeSpec(r, po)
+	return p
+}
+
+func genProbeSpec(r *vh.Rng, po probeOpts) (Probe, FrameSpec) {
 	c := r.Intn(po.nClients + 1) // the last index is a client the server never saw
-	mac := clientMAC(c)
+	if po.client != 0 {
+		c = po.client - 1
+	}
+	hw := []byte(clientMAC(c))
+	if h, ok := po.hw[c]; ok {
+		hw = h
+	}
+	mac := net.HardwareAddr(hw)
 	ip := po.ips[c]
 	lays := layouts(mac)
 	s := reqSpec{mac: mac, prl: r.Bool()}
@@ -157,6 +171,9 @@ func genProbe(r *vh.Rng, po probeOpts) Probe {
 		s.typ = 3 // REQUEST in RENEWING state: ciaddr, no option 50
 	}
 	fs := FrameSpec{MAC: mac, XID: uint32(r.U64()), Sname: r.Chance(1, 4)}
+	if len(hw) != 6 {
+		fs.Chaddr, fs.HlenSet, fs.Hlen = hw, true, byte(len(hw))
+	}
 	if s.typ == 3 && s.reqIP == nil && ip != nil {
 		fs.Ciaddr = ip
 	}
@@ -220,12 +237,67 @@ func genProbe(r *vh.Rng, po probeOpts) Probe {
 			fs.Tags = 1
 		}
 	}
-	return Probe{Frame: buildFrame(fs), Route: "k", C: c}
+	if len(hw) == 6 {
+		vary(r, &fs, po)
+	}
+	return Probe{Frame: buildFrame(fs), Route: "k", C: c}, fs
+}
+
+// vary: the request fields the reply construction carries over (hops, secs, TOS, IP id, fragment word, the
+// sixteen chaddr bytes with hlen / htype) - mostly the usual values, sometimes anything
+func vary(r *vh.Rng, fs *FrameSpec, po probeOpts) {
+	if r.Chance(1, 3) {
+		fs.Secs = uint16(r.Intn(65536))
+	}
+	if r.Chance(1, 4) {
+		fs.TOS = byte(r.Intn(256))
+	}
+	if r.Chance(1, 4) {
+		fs.Frag = pick(r, []uint16{0x4000, 0x2000, 0x00b9, 0x4001, 0xffff})
+	}
+	if r.Chance(1, 4) {
+		fs.TTL = byte(1 + r.Intn(255))
+	}
+	if r.Chance(1, 2) {
+		fs.IPIDSet, fs.IPID = true, uint16(r.Intn(65536))
+	}
+	if r.Chance(1, 6) {
+		fs.HopsSet, fs.Hops = true, byte(r.Intn(256))
+	}
+	if po.guarded {
+		// inside the guards the hardware address is the client's own; bytes behind it are padding the
+		// client may fill with anything
+		if r.Chance(1, 4) && len(fs.MAC) == 6 {
+			ch := append([]byte{}, fs.MAC...)
+			for len(ch) < 16 {
+				ch = append(ch, byte(1+r.Intn(255)))
+			}
+			fs.Chaddr = ch
+		}
+		return
+	}
+	if r.Chance(1, 4) {
+		ch := append([]byte{}, fs.MAC...)
+		for len(ch) < 16 {
+			ch = append(ch, byte(r.Intn(256)))
+		}
+		fs.Chaddr = ch[:16]
+		fs.HlenSet, fs.Hlen = true, pick(r, []byte{0, 1, 5, 6, 6, 7, 8, 8, 16, 17, 20, 255})
+		if r.Chance(1, 3) {
+			fs.Htype = pick(r, []byte{6, 27, 32, 255})
+		}
+	}
 }
 
 func addProbes(r *vh.Rng, c *Case, po probeOpts, n int) {
 	for i := 0; i < n; i++ {
-		p := genProbe(r, po)
+		p, fs := genProbeSpec(r, po)
+		if r.Chance(1, 5) {
+			// steer the IP identification so that the reply's header sum sits on a folding boundary
+			if fs2, ok := theEnv.tuneID(*c, len(c.Hist), fs, r.Intn(5), r); ok {
+				p.Frame = buildFrame(fs2)
+			}
+		}
 		if !po.guarded && r.Chance(1, 6) {
 			p.Route = "n"
 			p.NowRel = pick(r, []string{"exp-1", "exp", "exp+1"})
@@ -236,13 +308,14 @@ func addProbes(r *vh.Rng, c *Case, po probeOpts, n int) {
 
 // the state of the real server after the history, as far as the generators need it
 func (e *env) survey(c Case, n int) probeOpts {
-	w := e.build(c)
+	w := e.build(c, len(c.Hist))
 	po := probeOpts{ips: map[int]net.IP{}, cidOf: map[int][]byte{}, vlanOf: map[int][2]uint16{}, nClients: n}
 	for i := 0; i < n; i++ {
 		if ip, ok := w.offered[i]; ok {
 			po.ips[i] = ip
 		}
 	}
+	po.hw = c.HW
 	for _, o := range c.Hist {
 		if o.K == "req" && len(o.Cid) > 0 {
 			po.cidOf[o.C] = o.Cid
@@ -255,6 +328,194 @@ func (e *env) survey(c Case, n int) probeOpts {
 }
 
 var theEnv *env
+
+func (e *env) surveyAt(c Case, n, k int) probeOpts {
+	c2 := c
+	c2.Hist = c.Hist[:k]
+	return e.survey(c2, n)
+}
+
+// tuneID: choose the IP identification of a request so that the ten-word sum of the REPLY header (as the C
+// code forms it: little-endian words, checksum field zero) lands on a boundary of the end-around-carry fold.
+// The reply header is taken from a native run of the program itself in the state after k history ops.
+//   cat 0: the first fold carries again   1: folded sum 0xFFFF (checksum 0)   2: low half 0xFFFF
+//   cat 3: one off the carry              4: low half 0
+func (e *env) tuneID(c Case, k int, fs FrameSpec, cat int, r *vh.Rng) (FrameSpec, bool) {
+	if c.Mode == "raw" {
+		return fs, false
+	}
+	e.build(c, k)
+	d := e.dumpMaps()
+	if c.Mode == "net" {
+		d = d.netOrder()
+	}
+	e.loadNative(d)
+	fs.IPIDSet, fs.IPID = true, 0
+	out := e.runNative(buildFrame(fs), monoNow())
+	l3, ok := l3Off(out.Data)
+	if out.V != 3 || !ok {
+		return fs, false
+	}
+	var s0 uint32
+	for q := 0; q < 20; q += 2 {
+		if q != 4 && q != 10 {
+			s0 += uint32(binary.LittleEndian.Uint16(out.Data[l3+q:]))
+		}
+	}
+	var cand []uint16
+	for id := 0; id < 65536; id++ {
+		s := s0 + uint32(id>>8|(id&0xff)<<8)
+		f1 := s&0xffff + s>>16
+		var hit bool
+		switch cat {
+		case 0:
+			hit = f1 >= 0x10000
+		case 1:
+			hit = f1 == 0xffff
+		case 2:
+			hit = s&0xffff == 0xffff
+		case 3:
+			hit = f1 == 0xfffe || f1 == 0x10001 || (f1 >= 0x10000 && f1&0xffff == 0xffff)
+		default:
+			hit = s&0xffff == 0
+		}
+		if hit {
+			cand = append(cand, uint16(id))
+		}
+	}
+	if len(cand) == 0 {
+		return fs, false
+	}
+	fs.IPID = cand[r.Intn(len(cand))]
+	return fs, true
+}
+
+// life: the lease life cycle (grant, renew, renew from another circuit, release / decline with every
+// combination of option 50 and ciaddr, NAK, ageing, expiry sweep, re-grant), the fast path queried after
+// every message for the client the message was about
+func genLife(r *vh.Rng) Case {
+	c := baseCase(r, pick(r, []string{"go", "net", "net"}))
+	if r.Chance(1, 3) {
+		c.HW = map[int][]byte{1: {0x02, 0x00, 0x5e, 0xff, 0xfe, 0x10, 0x00, byte(0x20 + r.Intn(4))}}
+	}
+	n := 1 + r.Intn(2)
+	relay := map[int]bool{}
+	cidOf := map[int][]byte{}
+	for i := 0; i < n; i++ {
+		relay[i] = r.Chance(1, 2)
+		if relay[i] && r.Chance(3, 4) {
+			cidOf[i] = cids[(2*i+r.Intn(2))%4]
+		}
+		c.Hist = append(c.Hist, acquire(i, relay[i], cidOf[i])...)
+	}
+	for k := 2 + r.Intn(4); k > 0; k-- {
+		i := r.Intn(n)
+		switch r.Intn(10) {
+		case 0:
+			c.Hist = append(c.Hist, HOp{K: "rel", C: i, ReqIP: pick(r, []string{"", "own", "other"}), Ci: pick(r, []string{"", "", "none", "other"}), Relay: relay[i]})
+		case 1, 2:
+			c.Hist = append(c.Hist, HOp{K: "dec", C: i, ReqIP: pick(r, []string{"", "none", "other", "none", "other"}), Ci: pick(r, []string{"", "", "own", "other"}), Relay: relay[i]})
+		case 3:
+			c.Hist = append(c.Hist, HOp{K: "req", C: i, Relay: relay[i], Cid: cidOf[i]})
+		case 4: // the subscriber shows up behind another circuit
+			cidOf[i] = cids[r.Intn(4)]
+			relay[i] = true
+			c.Hist = append(c.Hist, HOp{K: "req", C: i, Relay: true, Cid: cidOf[i]})
+		case 5:
+			c.Hist = append(c.Hist, HOp{K: "age", D: c.Pool.LeaseSec/2 - 13})
+		case 6:
+			c.Hist = append(c.Hist, HOp{K: "age", D: c.Pool.LeaseSec + 100}, HOp{K: "clean"})
+		case 7:
+			c.Hist = append(c.Hist, acquire(i, relay[i], cidOf[i])...)
+		case 8:
+			c.Hist = append(c.Hist, HOp{K: "req", C: i, ReqIP: "other", Relay: relay[i]})
+		case 9: // renewal without option 82 (direct unicast to the server)
+			c.Hist = append(c.Hist, HOp{K: "req", C: i})
+		}
+	}
+	for k := 2; k <= len(c.Hist); k++ {
+		o := c.Hist[k-1]
+		if o.K == "disc" && k < len(c.Hist) {
+			continue
+		}
+		po := theEnv.surveyAt(c, n, k)
+		po.guarded = c.Mode == "net"
+		if o.K != "age" && o.K != "clean" {
+			po.client = o.C + 1
+		}
+		if cid, ok := cidOf[o.C]; ok {
+			po.cidOf[o.C] = cid
+		}
+		for j := 0; j < 2; j++ {
+			p := genProbe(r, po)
+			p.At = k
+			c.Probes = append(c.Probes, p)
+		}
+	}
+	return c
+}
+
+// hw: one cached subscriber (hardware address of 6, 8 or 16 bytes), requests with every hlen and the
+// bytes behind the first six either the subscriber's own or different, padding never zero
+func genHW(r *vh.Rng) Case {
+	c := baseCase(r, pick(r, []string{"net", "net", "go"}))
+	hw := []byte(clientMAC(0))
+	switch r.Intn(3) {
+	case 1:
+		hw = []byte{0x02, 0x00, 0x5e, 0xff, 0xfe, 0x10, 0x00, 0x21}
+	case 2:
+		hw = []byte{0x02, 0x00, 0x5e, 0x10, 0x00, 0x11, 1, 2, 3, 4, 5, 6, 7, 8, 9, 10}
+	}
+	c.HW = map[int][]byte{0: hw}
+	c.Hist = acquire(0, false, nil)
+	po := theEnv.survey(c, 1)
+	lay := layouts(clientMAC(0))
+	for _, hl := range []int{0, 1, 2, 3, 4, 5, 6, 7, 8, 9, 10, 11, 12, 13, 14, 15, 16, 17, 64, 255} {
+		ch := make([]byte, 16)
+		for i := range ch {
+			ch[i] = byte(1 + r.Intn(255))
+		}
+		copy(ch, hw[:6])
+		if r.Bool() {
+			copy(ch, hw) // the subscriber's own bytes, padding behind them
+		}
+		s := reqSpec{mac: clientMAC(0), typ: byte(1 + 2*r.Intn(2)), lay: lay[r.Intn(7)]}
+		if s.typ == 3 {
+			s.reqIP = po.ips[0]
+		}
+		fs := FrameSpec{MAC: clientMAC(0), XID: uint32(r.U64()), IHL: 5, PadTo: 64 + r.Intn(8), Chaddr: ch, HlenSet: true, Hlen: byte(hl)}
+		if r.Chance(1, 4) {
+			fs.Htype = pick(r, []byte{6, 27, 255})
+		}
+		if r.Chance(1, 3) {
+			fs.Flags = 0x8000
+		}
+		fs.Options = buildOptions(r, s)
+		c.Probes = append(c.Probes, Probe{Frame: buildFrame(fs), Route: "k"})
+	}
+	return c
+}
+
+// cksum: every reply shape (broadcast / unicast / relayed, 0-2 DNS servers, VLAN tags, TOS, fragment word)
+// with the IP identification steered onto each folding boundary of the header sum
+func genCksum(r *vh.Rng) Case {
+	c := baseCase(r, pick(r, []string{"net", "go"}))
+	relay := r.Chance(1, 3)
+	c.Hist = acquire(0, relay, nil)
+	po := theEnv.survey(c, 1)
+	po.guarded = true
+	po.client = 1
+	for cat := 0; cat < 5; cat++ {
+		for j := 0; j < 2; j++ {
+			p, fs := genProbeSpec(r, po)
+			if fs2, ok := theEnv.tuneID(c, len(c.Hist), fs, cat, r); ok {
+				p.Frame = buildFrame(fs2)
+			}
+			c.Probes = append(c.Probes, p)
+		}
+	}
+	return c
+}
 
 // ---------------------------------------------------------------- streams
 
@@ -627,7 +888,10 @@ func writeCorpus(dir string) {
 	}
 	mac := clientMAC(0)
 	frame := func(s reqSpec, fs FrameSpec) Probe {
-		s.mac, fs.MAC, fs.XID = mac, mac, 0x3903f326
+		s.mac, fs.XID = mac, 0x3903f326
+		if fs.MAC == nil {
+			fs.MAC = mac
+		}
 		if s.lay.pre == nil {
 			s.lay = layouts(mac)[0]
 		}
@@ -682,6 +946,17 @@ func writeCorpus(dir string) {
 	c.Note = "regression for fix c10bfec: 300-byte BOOTP request (12..63 option bytes) of a cached client must be passed unmodified"
 	c.Probes = []Probe{frame(disc, FrameSpec{PadTo: 12}), frame(req, FrameSpec{PadTo: 60}), frame(disc, FrameSpec{PadTo: 63, Sname: true})}
 	w["fixed-c10bfec-short-options"] = c
+	c = base("net")
+	c.Note = "K03j: subscriber_pools is keyed on six bytes: a DISCOVER / REQUEST of the EUI-64 client 02:00:5e:10:00:11:aa:bb (hlen 8, no lease) is answered with the binding of the Ethernet client 02:00:5e:10:00:11; userspace offers it another address / NAKs"
+	ch := append(append([]byte{}, mac...), 0xaa, 0xbb, 1, 2, 3, 4, 5, 6, 7, 8)
+	c.Probes = []Probe{frame(disc, FrameSpec{Chaddr: ch, HlenSet: true, Hlen: 8}), frame(req, FrameSpec{Chaddr: ch, HlenSet: true, Hlen: 8})}
+	w["k03j-six-byte-key"] = c
+	c = base("net")
+	c.Note = "K03k: client 1 holds its own lease; its relayed DISCOVER arrives with the circuit-id client 0 is bound to: the kernel answers from the circuit-id entry (client 0's address), userspace from the lease of the hardware address"
+	c.Hist = append(acquire(0, true, cids[0]), acquire(1, false, nil)...)
+	pk := frame(reqSpec{typ: 1, cid: cids[0], cidPos: 1}, FrameSpec{Giaddr: relayIP, MAC: clientMAC(1)})
+	c.Probes = []Probe{pk}
+	w["k03k-circuit-before-mac"] = c
 	for name, cs := range w {
 		b, _ := json.MarshalIndent(map[string]interface{}{"desc": cs}, "", " ")
 		must(os.WriteFile(filepath.Join(dir, name+".json"), b, 0o644))
